@@ -20,6 +20,7 @@ func init() {
 			c.run("C03-R3", "ORDER: no waiting while data is there", c03R3)
 			c.run("C03-R4", "FRESH: producers never rewrite a queued buffer", c03R4)
 			c.run("C03-R5", "MUST-PASS: the input pump queues exactly what each read returned and ends exactly on a read error", c03R5)
+			c.run("C03-S2", "shared with C16-R2: every piece of a line is searched for Ctrl-C before it is kept, so 'Interrupted' does not depend on where the chunks are cut", c16R2)
 		})
 }
 
